@@ -169,6 +169,8 @@ def _same(a, b):
     return a.rc is b.rc and a.rid == b.rid
   if isinstance(a, SP) and isinstance(b, SP):
     return a.obj is b.obj
+  if isinstance(a, SClass) and isinstance(b, SClass):
+    return a.cls is b.cls
   return a is b
 
 
@@ -607,6 +609,8 @@ class Compiler:
         v = self.var(name)
         fr.owned[name] = v
         fr.env[name] = SE(V(v))
+        fr.fresh = getattr(fr, "fresh", set())
+        fr.fresh.add(name)
       elif self.intlike(cur):
         v = self.var(name)
         fr.owned[name] = v
@@ -616,7 +620,15 @@ class Compiler:
 
   def bind(self, name, val):
     fr = self.frames[-1]
+    if name in fr.owned and not self.intlike(val) and name in getattr(fr, "fresh", ()):
+      # the name was reserved as a number when the dynamic region was entered, but it only ever holds an object (a snapshot, a list)
+      del fr.owned[name]
+      fr.fresh.discard(name)
+      fr.env[name] = val
+      return
     if name in fr.owned:
+      fr.fresh = getattr(fr, "fresh", set())
+      fr.fresh.discard(name)
       if not self.intlike(val):
         raise TranslationError("name %s holds a number on one path and an object on another (%s)" % (name, fr.qualname))
       cur = fr.env[name]
@@ -659,6 +671,11 @@ class Compiler:
       model = self.container_model(base)
       if model is None or model.cls != "dict":
         raise TranslationError("subscript assignment on %r" % (base,))
+      vt = self.sc.value_typ.get(model.name)
+      if isinstance(val, ST) and isinstance(vt, tuple) and vt[0] == "listref":
+        if len(val.items) != 1:
+          raise TranslationError("a new list value with %d elements" % len(val.items))
+        val = self.op(vt[1], "new", [val.items[0]], typ=vt)
       self.op(model, "setitem", [key, val], want=0)
     else:
       raise TranslationError("assignment target %s" % type(t).__name__)
@@ -769,6 +786,21 @@ class Compiler:
         x = Ite(Cmp("eq", V(iv), K(j)), V(src.cells[j]), x)
       self.assign_target(s.target, SE(x, src.typ))
       self.loop_body(s, head, iv, [(br, "f")])
+      return
+    if isinstance(src, SE) and isinstance(src.typ, tuple) and src.typ[0] == "listref":
+      lists = src.typ[1]
+      lref = self.var("listref")
+      self.assign(lref, src.x)
+      iv = self.var("i")
+      self.assign(iv, K(0))
+      head = self.label()
+      self.dyn += 1
+      stop_edges = []
+      self.handlers.append((("StopIteration",), stop_edges))
+      item = self.op(lists, "iter_next", [SE(V(lref)), SE(V(iv))], typ=self.sc.elem_typ.get(lists.name, "int"))
+      self.handlers.pop()
+      self.assign_target(s.target, item)
+      self.loop_body(s, head, iv, stop_edges)
       return
     if isinstance(src, SSnap2):
       iv = self.var("i")
@@ -939,7 +971,7 @@ class Compiler:
       return self.lift(self.sc.globals[name])
     if fr.globs is not None and name in fr.globs:
       return self.lift_global(name, fr.globs[name])
-    if name in ("len", "isinstance", "str", "super", "list", "reversed", "range", "id", "print", "int", "bool"):
+    if name in ("len", "isinstance", "str", "super", "list", "reversed", "range", "id", "print", "int", "bool", "type"):
       return SI(getattr(self, "b_" + name), name)
     if name in ("True", "False", "None"):
       return self.lift({"True": True, "False": False, "None": None}[name])
@@ -1010,6 +1042,13 @@ class Compiler:
       if raw is None:
         raise TranslationError("super().%s not found" % attr)
       return self.bind_class_attr(c, raw, base.self_val, attr)
+    if isinstance(base, SO) and base.model.cls == "dict" and attr in ("items", "keys", "values"):
+      return SI(lambda c, a, k, _m=base.model, _k=attr: SDictView(_m, _k), attr)
+    if isinstance(base, SE) and isinstance(base.typ, tuple) and base.typ[0] == "listref":
+      lists = base.typ[1]
+      if attr == "append":
+        return SI(lambda c, a, k, _b=base, _l=lists: c.op(_l, "append", [_b, a[0]], want=0), "list.append")
+      raise TranslationError("list method %s" % attr)
     if isinstance(base, SO):
       if (base.model.name, attr) in self.sc.stored_attrs:
         return self.sc.stored_attrs[(base.model.name, attr)]
@@ -1130,7 +1169,7 @@ class Compiler:
         raise TranslationError("dynamic deque index")
       return self.op(model, "getitem", [idx.py], typ=self.sc.deque_elem_typ(model))
     if model is not None and model.cls == "dict":
-      return self.op(model, "getitem", [idx])
+      return self.op(model, "getitem", [idx], typ=self.sc.value_typ.get(model.name, "int"))
     if isinstance(base, SSnap):
       x = K(0)
       ix = self.intx(idx)
@@ -1285,6 +1324,9 @@ class Compiler:
     model = self.container_model(container)
     if model is not None and model.cls == "dict":
       return self.op(model, "contains", [x])
+    if isinstance(container, SSnap):
+      xi = self.intx(x)
+      return SE(BoolOp("or", [BoolOp("and", [Cmp("lt", K(j), V(container.lenvar)), Cmp("eq", V(container.cells[j]), xi)]) for j in range(len(container.cells))]))
     if isinstance(container, SK) and isinstance(container.py, str) and isinstance(x, SK) and isinstance(x.py, str):
       return self.lift(x.py in container.py)
     if isinstance(container, ST) and isinstance(x, SK):
@@ -1305,9 +1347,13 @@ class Compiler:
 
   def e_ListComp(self, e):
     # [x for x in <deque>] : an atomic snapshot (as list(deque) is in CPython)
-    if len(e.generators) == 1 and not e.generators[0].ifs and isinstance(e.elt, ast.Name) and isinstance(e.generators[0].target, ast.Name) \
-       and e.elt.id == e.generators[0].target.id:
-      src = self.expr(e.generators[0].iter)
+    g = e.generators[0] if len(e.generators) == 1 else None
+    plain = g is not None and not g.ifs and isinstance(g.target, ast.Name) and (
+      (isinstance(e.elt, ast.Name) and e.elt.id == g.target.id) or
+      (isinstance(e.elt, ast.Call) and isinstance(e.elt.func, ast.Name) and e.elt.func.id == "id" and len(e.elt.args) == 1
+       and isinstance(e.elt.args[0], ast.Name) and e.elt.args[0].id == g.target.id))        # [id(x) for x in c]: objects are their numbers
+    if plain:
+      src = self.expr(g.iter)
       return self.snapshot(src)
     raise TranslationError("list comprehension other than [x for x in container]")
 
@@ -1327,6 +1373,30 @@ class Compiler:
       return SSnap(dsts[0], dsts[1:], self.sc.deque_elem_typ(model))
     if isinstance(src, SSnap):
       return src
+    if isinstance(src, SE) and isinstance(src.typ, tuple) and src.typ[0] == "listref":
+      # a comprehension / list() over a python list advances a list iterator one bytecode at a time: stepwise, into local cells
+      lists = src.typ[1]
+      lref = self.var("listref")
+      self.assign(lref, src.x)
+      cells = [self.var("snapcell") for _ in range(lists.cells)]
+      for cvar in cells:
+        self.assign(cvar, K(0))
+      iv = self.var("i")
+      self.assign(iv, K(0))
+      head = self.label()
+      self.dyn += 1
+      stop_edges = []
+      self.handlers.append((("StopIteration",), stop_edges))
+      item = self.op(lists, "iter_next", [SE(V(lref)), SE(V(iv))])
+      self.handlers.pop()
+      for j, cvar in enumerate(cells):
+        self.assign(cvar, Ite(Cmp("eq", V(iv), K(j)), item.x, V(cvar)))
+      self.assign(iv, Bin("add", V(iv), K(1)))
+      self.patch_to(self.dangling, head.id)
+      self.dyn -= 1
+      self.dangling = stop_edges
+      self.label()
+      return SSnap(iv, cells, self.sc.elem_typ.get(lists.name, "int"))
     raise TranslationError("snapshot of %r" % (src,))
 
   def e_Call(self, e):
@@ -1380,6 +1450,13 @@ class Compiler:
         args = args[:1] if name.startswith("put") else []
       want = 1 if name in ("get", "get_nowait", "full", "empty", "qsize") else 0
       return self.op(target, name, args if name.startswith("put") else [], want=want)
+    if cls == "PriorityQueue":
+      if name == "put":
+        return self.op(target, "put", args[:1], want=0)
+      if name == "get":
+        return self.op(target, "get", [], typ=self.sc.elem_typ.get(target.name, "int"))
+      if name == "task_done":
+        return self.op(target, "task_done", [], want=0)
     if cls == "deque":
       if name in ("append", "appendleft"):
         return self.op(target, name, args, want=0)
@@ -1434,6 +1511,8 @@ class Compiler:
       return SE(V(v.lenvar))
     if isinstance(v, ST):
       return self.lift(len(v.items))
+    if isinstance(v, SE) and isinstance(v.typ, tuple) and v.typ[0] == "listref":
+      return self.op(v.typ[1], "__len__", [v])
     raise TranslationError("len(%r)" % (v,))
 
   def b_isinstance(self, comp, args, kwargs):
@@ -1442,6 +1521,9 @@ class Compiler:
       c = SClass({"str": str, "int": int, "bool": bool, "list": list}[c.name])
     if isinstance(v, SK) and isinstance(c, SClass):
       return self.lift(isinstance(v.py, c.cls))
+    if isinstance(v, SE) and isinstance(c, SClass) and isinstance(v.typ, tuple) and v.typ[0] == "obj":
+      # a reference to one of the modelled objects of a class: plain deques are not LockingDeques, and so on
+      return self.lift(c.cls.__name__.lower() == str(v.typ[1]).lower())
     if isinstance(v, SE) and isinstance(c, SClass):
       if c.cls is str:
         return self.lift(v.typ == "str")
@@ -1463,6 +1545,17 @@ class Compiler:
 
   def b_list(self, comp, args, kwargs):
     return self.snapshot(args[0])
+
+  def b_type(self, comp, args, kwargs):
+    v = args[0]
+    if isinstance(v, SK):
+      return SClass(type(v.py))
+    rc = v.rc if isinstance(v, SRec) else (v.typ[1] if isinstance(v, SE) and isinstance(v.typ, tuple) and v.typ[0] == "rec" else None)
+    if rc is not None and rc.name in self.sc.record_pyclass:
+      return SClass(self.sc.record_pyclass[rc.name])
+    if isinstance(v, SE) and v.typ == "int":
+      return SClass(int)
+    raise TranslationError("type(%r)" % (v,))
 
   def b_id(self, comp, args, kwargs):
     return SE(self.intx(args[0]))
